@@ -309,6 +309,17 @@ impl Report {
                 self.property, k.what, k.signature, n
             );
         }
+        // listed findings this run did not happen to reproduce (e.g. races) are still named
+        for k in known.iter().filter(|k| {
+            k.property == self.property
+                && k.status == "known"
+                && !listed.iter().any(|(l, _)| l.signature == k.signature)
+        }) {
+            println!(
+                "KNOWN-FINDING: property={} {} [signature={} not observed in this run]",
+                self.property, k.what, k.signature
+            );
+        }
         for ((v, n), path) in unlisted.iter().zip(replay_paths.iter()) {
             println!("VIOLATION property={} replay={}", self.property, path);
             println!(
